@@ -18,8 +18,8 @@
 
    Any number of Serve loops and ServeConn callers, any interleaving.  The worker pool is abstracted to its
    two counters (Model/WorkerPool.v, property C13, models it in detail): getCh succeeds iff a ready worker exists
-   or workersCount < MaxWorkersCount.  perIPConn objects are identified with their connection here; the sync.Pool
-   that recycles them is modelled separately below (wrapper pool).
+   or workersCount < MaxWorkersCount.  perIPConn objects are identified with their connection here; their identity
+   and perIPConnPool are modelled separately below (wrapper objects).
 
    No proofs in this file. *)
 From Coq Require Import List ZArith NArith Bool Arith.
@@ -470,13 +470,13 @@ Definition all_terminal (s : st) : bool := forallb terminal (conns s).
 
 Definition n_running (s : st) : Z := sumf (fun lp => b2z (running lp)) (loops s).
 
-(* ==== the perIPConn wrapper pool ================================================================================
-   peripconn.go recycles perIPConn objects through a sync.Pool: perIPConn.Close sets c.Conn = nil under c.lock, closes the
-   underlying connection, unregisters c.ip and Puts the object into perIPConnPool; acquirePerIPConn Gets an object and
-   overwrites c.Conn and c.ip (without the lock).  Whoever still holds a pointer to the object after its first Close
-   (the serving goroutine after closeIdleConns closed it, a handler that kept ctx.Conn(), the user of a hijacked connection
-   calling Close once more) holds a pointer to an object that may meanwhile wrap ANOTHER connection.
-   This second LTS keeps the identity of the wrapper objects that the LTS above abstracts away. *)
+(* ==== the perIPConn wrapper objects ===============================================================================
+   perIPConn.Close sets c.Conn = nil under c.lock, closes the underlying connection and unregisters c.ip.  Several parties can hold
+   a pointer to the same object (the serving goroutine, s.idleConns / closeIdleConns, a handler that kept ctx.Conn(), the user of a
+   hijacked connection) and each may call Close; acquirePerIPConn Gets an object from perIPConnPool and overwrites c.Conn / c.ip.
+   Since "fix: do not recycle perIPConn wrappers" (bf2f4e5) Close does not Put the object back any more, so the pool stays empty
+   and every connection gets a fresh object.  (Before that fix a Close through a stale pointer closed the connection the object
+   had been handed to next.)  This second LTS keeps the identity of the wrapper objects that the LTS above abstracts away. *)
 Record wrapper := mkW {
   w_conn : option nat;   (* perIPConn.Conn: the underlying connection (by id), None = nil *)
   w_addr : N             (* perIPConn.ip *)
@@ -522,8 +522,8 @@ Definition pstep (s : pst) (l : plabel) : option pst :=
       match nth_error (owner s) c with
       | Some w =>
           match nth_error (wrappers s) w with
-          | Some (mkW (Some c') ip') =>    (* cc := c.Conn; c.Conn = nil; cc.Close(); Unregister(c.ip); Put(c) *)
-              Some (mkP (upd (wrappers s) w (mkW None ip')) (w :: pool s) (owner s) (uclosed s ++ [(c, c')]) (unregister (pm s) ip'))
+          | Some (mkW (Some c') ip') =>    (* cc := c.Conn; c.Conn = nil; cc.Close(); Unregister(c.ip) -- the object is not recycled *)
+              Some (mkP (upd (wrappers s) w (mkW None ip')) (pool s) (owner s) (uclosed s ++ [(c, c')]) (unregister (pm s) ip'))
           | Some (mkW None _) => Some s    (* cc == nil: return nil *)
           | None => None
           end
